@@ -198,7 +198,9 @@ class Optimizer(Identifiable, Runnable):
         return state
 
     def load_state_dict(self, state_dict: dict[str, Any]) -> None:
-        self._epoch = state_dict["iteration"]
+        # a checkpoint is written at the end of an iteration: "iteration" is the
+        # last completed iteration and the run continues with the next one
+        self._epoch = state_dict["iteration"] + 1
         self.optimizer.load_state_dict(state_dict["optimizer"])
         if self.scheduler is not None:
             self.scheduler.load_state_dict(state_dict["scheduler"])
